@@ -20,7 +20,16 @@ func setupLogCapture() {
 	if os.Getenv("VERIF_NO_LOGCAP") != "" {
 		return
 	}
-	f, err := os.CreateTemp("", "verif-logcap-*.log")
+	// the driver names the file (VERIF_LOGCAP_FILE) so that it can read the panic message of a service that killed the process:
+	// the Go runtime writes it to fd 2, which is captured too
+	var f *os.File
+	var err error
+	keep := os.Getenv("VERIF_LOGCAP_FILE")
+	if keep != "" {
+		f, err = os.Create(keep)
+	} else {
+		f, err = os.CreateTemp("", "verif-logcap-*.log")
+	}
 	if err != nil {
 		return
 	}
@@ -37,7 +46,9 @@ func setupLogCapture() {
 	_ = syscall.Dup2(int(f.Fd()), 1)
 	_ = syscall.Dup2(int(f.Fd()), 2)
 	capFile, capPath = f, f.Name()
-	_ = os.Remove(capPath) // keep the inode only: nothing is left behind when the process ends
+	if keep == "" {
+		_ = os.Remove(capPath) // keep the inode only: nothing is left behind when the process ends
+	}
 }
 
 // logMark returns the current size of the capture file.
